@@ -249,7 +249,7 @@ func TestC02(t *testing.T) {
 	if os_only_regress() {
 		return
 	}
-	search(t, rec, "schedule", budget(2500, 64000), 0, func(rt *rapid.T) {
+	search(t, rec, "schedule", budget(2500, 480000), 0, func(rt *rapid.T) {
 		cfg := genC02(rt)
 		o := c02Run(c, cfg)
 		if o.sig != "" {
